@@ -337,7 +337,7 @@ theorem allowedOther_eq {m i row} (h : Rel m i row) (hself : i.selfSent = false)
 def tpKeysFor (p : Provider) (nm : MemberContent) : Option Nat :=
   match nm.thirdPartyInvite with
   | none => some 0
-  | some _ => if nm.membership != b!"invite" then some 0 else thirdPartyKeys p nm
+  | some s => if nm.membership != b!"invite" then some 0 else if s.token.isEmpty then none else thirdPartyKeys p nm
 
 theorem bind_tp (tk : Option Nat) (x : R Nat) (k : Nat → R Unit)
     (hx : x = match tk with
@@ -425,11 +425,14 @@ theorem member_eq (c : Ctx) (p : Provider) (hf : Fresh p c) (e : Event) (sig : B
         by_cases hinv : (nm.membership != b!"invite") = true
         · simp only [hinv, if_true]; rfl
         · simp only [hinv, if_false, Bool.false_eq_true]
-          cases p.thirdPartyInvite s.token with
-          | none => rfl
-          | some tpe =>
-            simp only [Option.bind_some]
-            cases decodeThirdPartyInviteKeys tpe.content <;> rfl
+          by_cases htok : s.token.isEmpty = true
+          · simp only [htok, if_true]
+          · simp only [htok, if_false, Bool.false_eq_true]
+            cases p.thirdPartyInvite s.token with
+            | none => rfl
+            | some tpe =>
+              simp only [Option.bind_some]
+              cases decodeThirdPartyInviteKeys tpe.content <;> rfl
     · cases htp : tpKeysFor p nm with
       | none =>
         -- an invite naming a third-party invite for which there is no usable m.room.third_party_invite event
@@ -446,7 +449,10 @@ theorem member_eq (c : Ctx) (p : Provider) (hf : Fresh p c) (e : Event) (sig : B
             have hnj : nm.membership = b!"invite" := by simpa using hinv
             have : ruleMemberDecision lib (MemberInputs.mk c p e sv target nm om sm sig) = false := by
               unfold ruleMemberDecision ruleFirstJoin ruleThirdPartyInvite
-              simp [htpi, hnj, htp]
+              by_cases htok : s.token.isEmpty = true
+              · simp [htpi, hnj, htok]
+              · simp only [htok, if_false, Bool.false_eq_true] at htp
+                simp [htpi, hnj, htp]
             simp [this]
       | some tpKeys =>
         simp only
@@ -558,13 +564,17 @@ theorem member_eq (c : Ctx) (p : Provider) (hf : Fresh p c) (e : Event) (sig : B
                         rw [hinew, hitarget]
                         have hip : i.p = p := by subst hi; rfl
                         have hisig : i.sig3pid = sig := by subst hi; rfl
-                        have htp' : thirdPartyKeys p nm = some tpKeys := by
+                        have htp' : s.token.isEmpty = false ∧ thirdPartyKeys p nm = some tpKeys := by
                           unfold tpKeysFor at htp
                           rw [htpi] at htp
                           have : (nm.membership != b!"invite") = false := by simpa using hinv
-                          simpa [this] using htp
-                        rw [hip, hisig, htp']
-                        simp only [hd7, Bool.true_or, Bool.and_true]
+                          simp only [this, Bool.false_eq_true, if_false] at htp
+                          by_cases htok : s.token.isEmpty = true
+                          · simp [htok] at htp
+                          · simp only [htok, if_false, Bool.false_eq_true] at htp
+                            exact ⟨by simpa using htok, htp⟩
+                        rw [hip, hisig, htp'.2, htp'.1]
+                        simp only [hd7, Bool.true_or, Bool.and_true, Bool.not_false, Bool.true_and]
                         by_cases hmx2 : target = s.mxid
                         · simp only [hmx2, bne_self_eq_false, Bool.false_eq_true, if_false, beq_self_eq_true, Bool.true_and]
                           cases hcond : (decide (tpKeys > 0) && s.sigs.any (fun dk => (b!"ed25519").isPrefixOf dk.2) && sig) <;>
